@@ -12,10 +12,12 @@ def run(ver):
     core.replay_cases(ver, binp, res["out_path"], wd, "mc_c03")
     core.validate_traces(ver, binp, "c03", "Trace_C03", wd, gen_args=["20000"])
     core.table_sweep(ver, binp, wd, {"enc"})
+    # each built-in Encode impl: the typed events of C01 (value, bytes) with the verdict restricted to "bytes = reference encoding"
+    core.validate_traces(ver, binp, "c01", "Trace_Typed", wd, gen_args=["300" if ver.tier == "quick" else "1500"], only_why={"enc"})
     ver.assumptions += ["TLC evaluates the TLA+ operators correctly",
                         "the 2^32 sweep of the quantifier runs against the class table of MC_Tables (every third argument in thorough, a 1/4099 stratum in quick) next to exhaustive 8/16-bit ranges, +-3 around every power of two, 0..2^17 and seeded random arguments validated by TLC",
                         "determinism is checked by executing every call sequence twice",
-                        "the built-in Encode impls are covered by the C01/C07 events (bytes = reference encoding of the value)"]
+                        "the built-in Encode impls are judged on the typed events shared with C01 (bytes = reference encoding of the projected value, Trace_Typed why=enc); containers whose bytes must not depend on their history (VecDeque ring position, HashMap order aside) are generated through such histories"]
     return ver.finish("model_checking",
                       "MC: the ghost nesting semantics of call sequences agrees with the RFC 8949 grammar (balanced <=> one well-formed item, open => strict prefix) "
                       "for every sequence up to MaxCalls; S->I: every method x boundary argument and every explored sequence replayed on Encoder<Vec<u8>>; "
